@@ -15,12 +15,15 @@ pub uninterp spec fn dual_cost(c: DualConnector, r: u16, l: u16) -> int;
 pub uninterp spec fn dual_bound(c: DualConnector) -> int;
 impl CostModel for RawConnector {
     open spec fn conn_wf(&self) -> bool { raw_wf(*self) }
+    open spec fn conn_shape(&self) -> bool { raw_wf(*self) }
     open spec fn spec_num_left(&self) -> int { raw_num_left(*self) }
     open spec fn spec_num_right(&self) -> int { raw_num_right(*self) }
     open spec fn spec_cost(&self, right_id: u16, left_id: u16) -> int { raw_cost(*self, right_id, left_id) }
     open spec fn spec_cost_bound(&self) -> int { raw_bound(*self) }
     #[verifier::external_body]
     proof fn lemma_conn_wf(&self) {}
+    proof fn lemma_shape_of_wf(&self) {}
+    proof fn lemma_wf_of_shape(&self) {}
 }
 impl Connector for RawConnector {
     #[verifier::external_body]
@@ -36,12 +39,15 @@ impl ConnectorCost for RawConnector {
 }
 impl CostModel for DualConnector {
     open spec fn conn_wf(&self) -> bool { dual_wf(*self) }
+    open spec fn conn_shape(&self) -> bool { dual_wf(*self) }
     open spec fn spec_num_left(&self) -> int { dual_num_left(*self) }
     open spec fn spec_num_right(&self) -> int { dual_num_right(*self) }
     open spec fn spec_cost(&self, right_id: u16, left_id: u16) -> int { dual_cost(*self, right_id, left_id) }
     open spec fn spec_cost_bound(&self) -> int { dual_bound(*self) }
     #[verifier::external_body]
     proof fn lemma_conn_wf(&self) {}
+    proof fn lemma_shape_of_wf(&self) {}
+    proof fn lemma_wf_of_shape(&self) {}
 }
 impl Connector for DualConnector {
     #[verifier::external_body]
